@@ -19,7 +19,7 @@ import (
 // Deterministic witness cases (case index = position): each replays one confirmed finding on the
 // real code every run and reports it under a stable key (known_findings.json). The same worlds
 // are the `Neg` theorems of LinVerif/Props/C12.lean.
-var witnesses = []func(c *core.Ctx){witnessArrivalOrder, witnessMissingField, witnessLastField, witnessTwoFunctions, witnessReceiveOnly}
+var witnesses = []func(c *core.Ctx){witnessArrivalOrder, witnessMissingField, witnessLastField, witnessTwoFunctions, witnessReceiveOnly, witnessArrivalOrderL2, witnessMissingFieldL2}
 
 func twoSeriesWorld(types ...field.Type) *World {
 	w := &World{TagKeys: []string{"host"}}
@@ -227,5 +227,76 @@ func witnessReceiveOnly(c *core.Ctx) {
 	if out.Err == "pending" {
 		c.Fail("group-by-two-brokers-receive-only-target-never-answers",
 			fmt.Sprintf("plan has %d targets, %d answered; the root waits for the ReceiveOnly target until the deadline", len(reqs), answered))
+	}
+}
+
+// writtenFields is the node-local schema real writes produce: the fields of the points of the
+// node's series, in first-written order.
+func writtenFields(w *World, leaf *LeafDef) []int {
+	var out []int
+	seen := map[int]bool{}
+	for _, sh := range leaf.Shards {
+		for _, s := range sh {
+			for _, p := range w.Points {
+				if p.Series == s && !seen[p.Field] {
+					seen[p.Field] = true
+					out = append(out, p.Field)
+				}
+			}
+		}
+	}
+	return out
+}
+
+func l2TwoLeaves(w *World) []*LeafDef {
+	ls := twoLeaves(nil, nil)
+	for _, l := range ls {
+		l.KnownFields = writtenFields(w, l)
+	}
+	return ls
+}
+
+// (a) at level 2: two real storage nodes; f2 is only ever written to the series on node B, so
+// only B's real metadata database knows it. `select *` through the real leaf task processors.
+func witnessArrivalOrderL2(c *core.Ctx) {
+	w := twoSeriesWorld(field.SumField, field.SumField)
+	w.Points = []Point{{0, 0, 1, 5}, {1, 0, 1, 7}, {1, 1, 2, 3}}
+	q := &QueryDef{AllFields: true, NumSlots: 4, Limit: 100, ftypes: ftypesOf(w)}
+	ab, err := runLayoutL2(c, w, q, &Layout{Leaves: l2TwoLeaves(w), LeafPerm: [][]int{{0, 1}}}, 0)
+	if err != nil {
+		panic(err)
+	}
+	ba, err := runLayoutL2(c, w, q, &Layout{Leaves: l2TwoLeaves(w), LeafPerm: [][]int{{1, 0}}}, 10)
+	if err != nil {
+		panic(err)
+	}
+	c.NonTrivial()
+	c.Branch("level2")
+	if ab.res.rowsLine() != ba.res.rowsLine() {
+		c.Fail("select-all-node-local-schema-arrival-order",
+			fmt.Sprintf("[real storage nodes] node A's schema has f1, node B's f1 and f2; A first: %q, B first: %q", ab.res.rowsLine(), ba.res.rowsLine()))
+	}
+}
+
+// (b) at level 2: `select f1, f2`; the real metadata lookup on node A (which never saw f2) fails.
+func witnessMissingFieldL2(c *core.Ctx) {
+	w := twoSeriesWorld(field.SumField, field.SumField)
+	w.Points = []Point{{0, 0, 1, 5}, {1, 0, 1, 7}, {1, 1, 2, 3}}
+	q := &QueryDef{Selects: []SelectDef{{"f1", function.Unknown}, {"f2", function.Unknown}}, NumSlots: 4, Limit: 100, ftypes: ftypesOf(w)}
+	ref := reference(w)
+	ref.Leaves[0].KnownFields = writtenFields(w, ref.Leaves[0])
+	single, err := runLayoutL2(c, w, q, ref, 0)
+	if err != nil {
+		panic(err)
+	}
+	split, err := runLayoutL2(c, w, q, &Layout{Leaves: l2TwoLeaves(w), LeafPerm: [][]int{{0, 1}}}, 10)
+	if err != nil {
+		panic(err)
+	}
+	c.NonTrivial()
+	c.Branch("level2")
+	if single.res.rowsLine() != split.res.rowsLine() {
+		c.Fail("leaf-without-one-selected-field-loses-its-other-fields",
+			fmt.Sprintf("[real storage nodes] one node: %q; series a on a node that never saw f2: %q", single.res.rowsLine(), split.res.rowsLine()))
 	}
 }
